@@ -112,6 +112,24 @@ int main(int argc, char** argv) {
                 q.setEpSquare(Square(-1));
                 Position q0(pos);
                 q0.setEpSquare(Square(-1));
+                // en passant: a pawn of the side to move stands beside a pawn that has just made a double step, so the capture is
+                // possible and the key carries the constant of the en-passant FILE (positions built for every file, both colours)
+                if (poss.size() % 3 == 1) {
+                    static int epNo = 0;
+                    int f = epNo % 8; bool wtm = (epNo / 8) % 2 == 0; epNo++;
+                    int fa = f == 0 ? 1 : (f == 7 ? 6 : (epNo % 2 ? f - 1 : f + 1));
+                    std::string row = "8";
+                    { std::string r(8, '1'); r[f] = wtm ? 'p' : 'P'; r[fa] = wtm ? 'P' : 'p'; row = r; }
+                    std::string fenE = wtm ? ("4k3/8/8/" + row + "/8/8/8/4K3 w - " + std::string(1, (char)('a' + f)) + "6 0 1")
+                                           : ("4k3/8/8/8/" + row + "/8/8/4K3 b - " + std::string(1, (char)('a' + f)) + "3 0 1");
+                    try {
+                        Position pe = TextIO::readFEN(fenE);
+                        if (pe.getEpSquare().isValid()) {
+                            Position pn(pe); pn.setEpSquare(Square(-1));
+                            os << "{\"e\":\"KeyDiff\",\"what\":\"ep" << (char)('A' + f) << "\",\"castle\":0,\"diff\":\"" << hex(PolyglotBook::getHashKey(pe) ^ PolyglotBook::getHashKey(pn)) << "\"}\n";
+                        }
+                    } catch (const ChessParseError&) {}
+                }
                 os << "{\"e\":\"KeyDiff\",\"what\":\"turn\",\"castle\":" << pos.getCastleMask() << ",\"diff\":\"" << hex(PolyglotBook::getHashKey(q0) ^ PolyglotBook::getHashKey(q)) << "\"}\n";
             }
         }
